@@ -1,10 +1,12 @@
 (** Executable entry point of the C08 model for the correspondence check.
     case = (body ops); statements: (0) signal, (1) stored value, (2) on_cleanup, (3 ty v) provide,
-    (4 ty) use, (5 body) child owner, (6 body) effect, (7 body) memo;
+    (4 ty) use, (5 body) child owner, (6 body) effect, (7 body) memo, (8 body) render effect,
+    (9 body) isomorphic effect, (10 body) watch, (11 body) immediate effect;
     ops: (10 o) re-run, (11 o) cleanup, (12 o) drop handle, (13 e) notify effect, (14 m) notify memo,
     (15 m) read memo, (16 e) poll task, (17 picks) run until idle, (18 o n) allocate, (19 h) dispose
     handle, (20 o) pause, (21 o) resume, (22 o ty) use_context at o, (23 m) dispose memo handle,
-    (24 e) dispose effect handle. *)
+    (24 e) dispose effect handle / drop render-effect handle, (26 i) notify immediate effect,
+    (27 i) drop immediate-effect handle. *)
 From Coq Require Import List ZArith Bool Arith.
 From LV Require Import Base.Sexp Reactive.RxUtil Reactive.Owner.
 Import ListNotations.
@@ -26,6 +28,10 @@ Fixpoint dec_stmt (s : sexp) : stmt :=
       | 5%Z => SChild body
       | 6%Z => SEffect body
       | 7%Z => SMemo body
+      | 8%Z => SRender body
+      | 9%Z => SEffect body      (* Effect::new_isomorphic: same task loop *)
+      | 10%Z => SEffect body     (* Effect::watch, the body being the dependency function *)
+      | 11%Z => SImm body
       | _ => SUse 0
       end
   | _ => SUse 0
@@ -50,6 +56,8 @@ Definition dec_op (e : sexp) : option op :=
   | 22%Z => Some (UseAt a (as_nat (nth_s 2 e)))
   | 23%Z => Some (DisposeMemo a)
   | 24%Z => Some (DisposeEffect a)
+  | 26%Z => Some (NotifyImm a)
+  | 27%Z => Some (DropImm a)
   | _ => None
   end.
 
@@ -60,6 +68,8 @@ Definition s_lent (l : lent) : sexp :=
   | LMemo m => Lst [Num 3; snat m]
   | LUse ty r => Lst [Num 4; snat ty; sopt Num r]
   | LRead m ok => Lst [Num 5; snat m; sbool ok]
+  | LRendInit o => Lst [Num 6; snat o]
+  | LImm i => Lst [Num 7; snat i]
   end.
 
 (** value seen through a retained handle: its own number, or -1 once disposed *)
